@@ -28,6 +28,14 @@ pub struct GenOpts {
     pub marker_chance: u32,
     /// weight of the empty alternative shape
     pub eps_weight: u32,
+    pub macro_weight: u32,
+    pub rep_weight: u32,
+    pub group_weight: u32,
+    pub min_macros: usize,
+    /// chance (of 256) that a user action is fallible
+    pub fallible_chance: u32,
+    /// also generate the Clone-only location type
+    pub clone_only_loc: bool,
 }
 
 impl GenOpts {
@@ -51,6 +59,12 @@ impl GenOpts {
             bare_terminals: true,
             marker_chance: 36,
             eps_weight: 14,
+            macro_weight: 22,
+            rep_weight: 30,
+            group_weight: 18,
+            min_macros: 0,
+            fallible_chance: 40,
+            clone_only_loc: false,
         }
     }
     pub fn plain() -> GenOpts {
@@ -73,6 +87,12 @@ impl GenOpts {
             bare_terminals: false,
             marker_chance: 0,
             eps_weight: 14,
+            macro_weight: 0,
+            rep_weight: 0,
+            group_weight: 0,
+            min_macros: 0,
+            fallible_chance: 0,
+            clone_only_loc: false,
         }
     }
 }
@@ -182,9 +202,9 @@ impl<'t, 'a> G<'t, 'a> {
 
     /// possibly decorated symbol
     fn sym(&mut self, depth: usize, declared_only: bool) -> SymKind {
-        let w_rep = if self.o.reps && depth < 2 { 30 } else { 0 };
-        let w_grp = if self.o.groups && depth < 2 { 18 } else { 0 };
-        let w_mac = if self.o.macros && !self.macros.is_empty() && depth < 2 { 22 } else { 0 };
+        let w_rep = if self.o.reps && depth < 2 { self.o.rep_weight } else { 0 };
+        let w_grp = if self.o.groups && depth < 2 { self.o.group_weight } else { 0 };
+        let w_mac = if self.o.macros && !self.macros.is_empty() && depth < 2 { self.o.macro_weight } else { 0 };
         match self.t.weighted(&[186, w_rep, w_grp, w_mac]) {
             1 => {
                 let inner = if self.t.chance(70) { self.sym(depth + 1, declared_only) } else { self.base(declared_only) };
@@ -311,7 +331,7 @@ impl<'t, 'a> G<'t, 'a> {
     fn user_alt(&mut self, ni: usize, ai: usize) -> AltSpec {
         let mut kinds = self.alt_syms(ni, ai, false);
         self.add_markers(&mut kinds);
-        let fallible = self.o.fallible && self.t.chance(40);
+        let fallible = self.o.fallible && self.t.chance(self.o.fallible_chance);
         let mut syms: Vec<SymSpec> = kinds.into_iter().map(SymSpec::plain).collect();
         let mut style = Style::Angle;
         if syms.is_empty() {
@@ -402,7 +422,7 @@ impl<'t, 'a> G<'t, 'a> {
         if !self.o.macros {
             return;
         }
-        let n = self.t.below(3);
+        let n = self.t.below(3).max(self.o.min_macros);
         for _ in 0..n {
             let idx = self.spec.nts.len();
             let lits: Vec<usize> = (0..self.spec.terms.len()).filter(|&i| self.spec.terms[i].spell.starts_with('"')).collect();
@@ -555,7 +575,11 @@ pub fn gen_full(t: &mut Tape, o: &GenOpts) -> GSpec {
     let loc = if builtin || !o.loc_types {
         LocTy::Usize
     } else {
-        *t.pick(&[LocTy::Usize, LocTy::Usize, LocTy::Newtype])
+        if o.clone_only_loc {
+            *t.pick(&[LocTy::Usize, LocTy::Newtype, LocTy::CloneOnly])
+        } else {
+            *t.pick(&[LocTy::Usize, LocTy::Usize, LocTy::Newtype])
+        }
     };
     let lexer = if builtin { Lexer::Builtin } else { Lexer::Extern { loc } };
     let terms = gen_terms(t, o, builtin);
@@ -1014,4 +1038,115 @@ pub fn gen_cfg(t: &mut Tape) -> (GSpec, Vec<&'static str>) {
         }
     }
     (spec, tags)
+}
+
+// ---------------------------------------------------------- precedence (C12)
+
+/// One annotated nonterminal `E` with binary / prefix / postfix / ternary /
+/// atomic alternatives over arbitrary level numbers, listed in non-monotone
+/// order, with inherited levels / associativities, plus an outside reference
+/// (parenthesised atom) and an optional wrapper start symbol.
+pub fn gen_prec(t: &mut Tape) -> GSpec {
+    let terms: Vec<TermSpec> = (0..8u32).map(|k| extern_term(k, false)).collect();
+    let mut spec = GSpec { lexer: Lexer::Extern { loc: LocTy::Usize }, terms, nts: vec![], declare_error: true };
+    // N0 = wrapper (pub), N1 = E (annotated), N2 = T (atom with parens)
+    let wrapper = t.chance(90);
+    let e_idx = 1usize;
+    let t_idx = 2usize;
+    let user = |syms: Vec<SymKind>| AltSpec::new(syms.into_iter().map(SymSpec::plain).collect(), Act::User { fallible: false, style: Style::Angle });
+    let mut n0 = NtSpec { name: "N0".into(), public: wrapper, inline: false, ty: Some(Ty::Str), alts: vec![], cfg: vec![], params: vec![] };
+    n0.alts.push(user(vec![SymKind::N(e_idx)]));
+    if t.chance(80) {
+        // a second use from elsewhere, inside a group / repeat
+        n0.alts.push(user(vec![SymKind::T(5), SymKind::Rep(Box::new(SymKind::N(e_idx)), RepOp::Question), SymKind::T(6)]));
+    }
+    let pool_all = [0u32, 1, 2, 3, 5, 7, 10, 12, 37, 100];
+    let n_levels = 1 + t.below(4);
+    let mut levels: Vec<u32> = vec![];
+    let mut start = t.below(3);
+    for _ in 0..n_levels {
+        if start >= pool_all.len() {
+            break;
+        }
+        levels.push(pool_all[start]);
+        start += 1 + t.below(3);
+    }
+    let ops = [1usize, 2, 3, 4, 7];
+    let mut e = NtSpec { name: "E".into(), public: !wrapper, inline: false, ty: Some(Ty::Str), alts: vec![], cfg: vec![], params: vec![] };
+    let n_alts = 2 + t.below(5);
+    let atom_at = t.below(n_alts);
+    let me = SymKind::N(e_idx);
+    for ai in 0..n_alts {
+        let op = SymKind::T(ops[(ai + t.below(2)) % ops.len()]);
+        let op2 = SymKind::T(ops[(ai + 2) % ops.len()]);
+        let syms = if ai == atom_at {
+            if t.chance(150) {
+                vec![SymKind::N(t_idx)]
+            } else {
+                vec![SymKind::T(0)]
+            }
+        } else {
+            match t.weighted(&[90, 30, 30, 22, 16]) {
+                0 => vec![me.clone(), op, me.clone()],
+                1 => vec![op, me.clone()],
+                2 => vec![me.clone(), op],
+                3 => vec![me.clone(), op, me.clone(), op2, me.clone()],
+                _ => vec![SymKind::T(0)],
+            }
+        };
+        let mut alt = user(syms);
+        let lvl = if ai == atom_at && t.chance(200) { levels[0] } else { levels[t.below(levels.len())] };
+        if ai == 0 || t.chance(190) {
+            alt.prec = Some(lvl);
+        }
+        alt.assoc = match t.weighted(&[110, 50, 50, 24, 22]) {
+            1 => Some(Assoc::Left),
+            2 => Some(Assoc::Right),
+            3 => Some(Assoc::None),
+            4 => Some(Assoc::All),
+            _ => None,
+        };
+        e.alts.push(alt);
+    }
+    // associativity other than `all` on the lowest level is an error (A.3):
+    // compute effective (level, assoc) with inheritance and neutralise
+    let mut last = (0u32, Assoc::All);
+    let mut eff = vec![];
+    for a in &e.alts {
+        let (lvl, base) = match a.prec {
+            Some(l) => (l, Assoc::All),
+            None => last,
+        };
+        let assoc = a.assoc.unwrap_or(base);
+        last = (lvl, assoc);
+        eff.push((lvl, assoc));
+    }
+    let min_lvl = eff.iter().map(|x| x.0).min().unwrap();
+    // fix in order, re-deriving inheritance as we go
+    let mut last = (0u32, Assoc::All);
+    for a in e.alts.iter_mut() {
+        let (lvl, base) = match a.prec {
+            Some(l) => (l, Assoc::All),
+            None => last,
+        };
+        let mut assoc = a.assoc.unwrap_or(base);
+        if lvl == min_lvl && assoc != Assoc::All {
+            a.assoc = Some(Assoc::All);
+            assoc = Assoc::All;
+        }
+        last = (lvl, assoc);
+    }
+    let tnt = NtSpec {
+        name: "T".into(),
+        public: false,
+        inline: false,
+        ty: Some(Ty::Str),
+        alts: vec![user(vec![SymKind::T(0)]), user(vec![SymKind::T(5), SymKind::N(e_idx), SymKind::T(6)])],
+        cfg: vec![],
+        params: vec![],
+    };
+    spec.nts.push(n0);
+    spec.nts.push(e);
+    spec.nts.push(tnt);
+    spec
 }
